@@ -129,11 +129,11 @@ theorem mkNew_nv (c : Cfg) (s : Nat) (nv : NV) : (mkNew c s nv).1.nv = nv := by
 
 theorem step_seed (c : Cfg) (t : Trace) (a : Act) :
     (step run c t a).obj.seed = seedAfter t.obj.seed [a] := by
-  cases a <;> simp [step, seedAfter, mkNew_seed, setSeed_seed, buildMatrices_seed, run_seed]
+  cases a <;> simp [step, seedAfter, mkNew_seed, setSeed_seed, buildMatrices_seed, run_seed, getHShelf_seed, getHInt_seed]
 
 theorem step_nv (c : Cfg) (t : Trace) (a : Act) :
     (step run c t a).obj.nv = nvAfter t.obj.nv [a] := by
-  cases a <;> simp [step, nvAfter, mkNew_nv, setSeed_nv, buildMatrices_nv, run_nv]
+  cases a <;> simp [step, nvAfter, mkNew_nv, setSeed_nv, buildMatrices_nv, run_nv, getHShelf_nv, getHInt_nv]
 
 theorem seedAfter_cons (s : Nat) (a : Act) (h : List Act) :
     seedAfter s (a :: h) = seedAfter (seedAfter s [a]) h := by
@@ -203,6 +203,92 @@ theorem run_schedule_canonical_same_seed (c : Cfg) (h : List Act) (s : Nat)
   have hs0 : (defaultObj c).seed = 2021 := mkNew_seed c 2021 ⟨7, 7, 1⟩
   rw [fresh_run, exec, last_run, hd, hs0, hs]; rfl
 
+/-! ### the vial seed -/
+
+theorem buildShelf_seedV (c : Cfg) (o : Obj) : (buildShelf c o).1.seedV = o.seedV := by
+  by_cases hz : o.nv.nz = 1 <;> cases hs : c.sigmaPos <;> simp [buildShelf, hz, hs]
+
+theorem getHShelf_seedV (c : Cfg) (o : Obj) : (getHShelf c o).1.seedV = o.seedV := by
+  unfold getHShelf; split
+  · exact buildShelf_seedV c o
+  · rfl
+
+theorem buildMatrices_seedV (c : Cfg) (o : Obj) : (buildMatrices c o).1.seedV = o.seedV := by
+  unfold buildMatrices; rw [buildShelf_seedV]
+
+theorem getHInt_seedV (c : Cfg) (o : Obj) : (getHInt c o).1.seedV = o.seedV := by
+  unfold getHInt; split
+  · exact buildMatrices_seedV c o
+  · rfl
+
+theorem run_seedV (c : Cfg) (o : Obj) : (run c o).1.seedV = o.seedV := by
+  unfold run
+  simp only [rollDice]
+  rw [getHShelf_seedV, buildShelf_seedV]
+  simp only []
+  rw [getHInt_seedV, getHInt_seedV]
+
+theorem setSeed_seedV (c : Cfg) (s : Nat) (o : Obj) : (setSeed c s o).1.seedV = o.seedV := by
+  unfold setSeed; simp only []; rw [getHShelf_seedV]
+
+theorem mkNew_seedV (c : Cfg) (s : Nat) (nv : NV) : (mkNew c s nv).1.seedV = 2024 := by
+  unfold mkNew; simp only []; rw [buildShelf_seedV]
+
+theorem step_seedV (c : Cfg) (t : Trace) (a : Act) :
+    (step run c t a).obj.seedV = seedVAfter t.obj.seedV [a] := by
+  cases a <;> simp [step, seedVAfter, mkNew_seedV, setSeed_seedV, buildMatrices_seedV, run_seedV,
+    getHShelf_seedV, getHInt_seedV]
+
+theorem seedVAfter_cons (v : Nat) (a : Act) (h : List Act) :
+    seedVAfter v (a :: h) = seedVAfter (seedVAfter v [a]) h := by
+  cases a <;> simp [seedVAfter]
+
+theorem foldl_seedV (c : Cfg) (h : List Act) (t : Trace) :
+    (h.foldl (step run c) t).obj.seedV = seedVAfter t.obj.seedV h := by
+  induction h generalizing t with
+  | nil => rfl
+  | cons a h ih => rw [List.foldl_cons, ih, step_seedV, ← seedVAfter_cons]
+
+theorem seedVAfter_append_setSeed (v0 s : Nat) (h : List Act) :
+    seedVAfter v0 (h ++ [.setSeed s]) = seedVAfter v0 h := by
+  induction h generalizing v0 with
+  | nil => simp [seedVAfter]
+  | cons a h ih => rw [List.cons_append, seedVAfter_cons, ih, ← seedVAfter_cons]
+
+/-- the kinetic deviates of the last run of a history that ends with `run` -/
+theorem last_xi (c : Cfg) (o : Obj) (h : List Act) :
+    (execFrom run c o (h ++ [.run])).xis.getLast? =
+      some (seedVAfter o.seedV h, (nvAfter o.nv h).total) := by
+  unfold execFrom
+  rw [List.foldl_append]
+  simp only [List.foldl_cons, List.foldl_nil, step]
+  simp only [List.getLast?_append, List.getLast?_singleton, Option.some_or]
+  rw [foldl_seedV, foldl_nv]
+
+theorem fresh_run_v (c : Cfg) (s v : Nat) (nv : NV) :
+    (exec c [.new s nv, .setSeedV v, .run]).scheds = [canon c s nv] ∧
+    (exec c [.new s nv, .setSeedV v, .run]).xis = [(v, nv.total)] := by
+  simp [exec, execFrom, step, run_sched, mkNew_seed, mkNew_nv]
+
+/-- **run_outcome_canonical**: for EVERY history (constructions, seed and vial-seed
+assignments, matrix builds, property reads in any order, shape changes, runs),
+seeding with `s` and running uses the generator schedule AND the vial deviates
+`(seed_v, N)` of a fresh `Snowflake(seed = s, seed_v = v)` of the shape and vial seed
+then in force: the legacy generator is re-seeded with the current `seed_v` in
+every run, nothing is remembered from earlier runs. -/
+theorem run_outcome_canonical (c : Cfg) (h : List Act) (s : Nat) :
+    (exec c (h ++ [.setSeed s, .run])).scheds.getLast? =
+      (exec c [.new s (nvAfter ⟨7, 7, 1⟩ h), .setSeedV (seedVAfter 2024 h), .run]).scheds.getLast? ∧
+    (exec c (h ++ [.setSeed s, .run])).xis.getLast? =
+      (exec c [.new s (nvAfter ⟨7, 7, 1⟩ h), .setSeedV (seedVAfter 2024 h), .run]).xis.getLast? := by
+  have e : h ++ [Act.setSeed s, Act.run] = (h ++ [Act.setSeed s]) ++ [Act.run] := by simp
+  have hd : (defaultObj c).nv = ⟨7, 7, 1⟩ := mkNew_nv c 2021 ⟨7, 7, 1⟩
+  have hv : (defaultObj c).seedV = 2024 := mkNew_seedV c 2021 ⟨7, 7, 1⟩
+  obtain ⟨f1, f2⟩ := fresh_run_v c s (seedVAfter 2024 h) (nvAfter ⟨7, 7, 1⟩ h)
+  rw [f1, f2, exec, e, last_run, last_xi, seedAfter_append_setSeed, nvAfter_append_setSeed,
+    seedVAfter_append_setSeed, hd, hv]
+  exact ⟨rfl, rfl⟩
+
 /-! ### recording -/
 
 theorem buildShelf_cfg (c c' : Cfg) (hc : c.sigmaPos = c'.sigmaPos) (o : Obj) :
@@ -218,7 +304,7 @@ theorem step_cfg (c c' : Cfg) (hc : c.sigmaPos = c'.sigmaPos) (t : Trace) (a : A
   have hs : setSeed c = setSeed c' := by funext s o; unfold setSeed; rw [hg]
   have hn : mkNew c = mkNew c' := by funext s nv; unfold mkNew; rw [hb]
   have hr : run c = run c' := by funext o; unfold run; rw [hi, hb, hg]
-  cases a <;> simp only [step, hs, hn, hm, hr]
+  cases a <;> simp only [step, hs, hn, hm, hr, hg, hi]
 
 /-- **record_independent**: the whole trace of a history — generator events, draw
 schedules and final object state — is the same for every deterministic storage
